@@ -10,9 +10,12 @@ pub mod c09;
 pub mod c10;
 pub mod c11;
 pub mod c12;
+pub mod c13;
 pub mod c14;
+pub mod c15;
 pub mod c18;
 pub mod c19;
+pub mod c20;
 pub mod common;
 
 use crate::engine::*;
@@ -31,9 +34,12 @@ pub fn run(ctx: &RunCtx) -> i32 {
         "C10" => c10::run(ctx),
         "C11" => c11::run(ctx),
         "C12" => c12::prop().run(ctx),
+        "C13" => c13::run(ctx),
         "C14" => c14::run(ctx),
+        "C15" => c15::run(ctx),
         "C18" => c18::run(ctx),
         "C19" => c19::run(ctx),
+        "C20" => c20::run(ctx),
         other => {
             eprintln!("unknown property {}", other);
             2
@@ -55,9 +61,12 @@ pub fn replay(id: &str, v: &serde_json::Value) -> CaseResult {
         "C10" => c10::replay(v, false),
         "C11" => c11::replay(v),
         "C12" => c12::prop().replay(v),
+        "C13" => c13::replay(v),
         "C14" => c14::replay(v),
+        "C15" => c15::replay(v),
         "C18" => c18::replay(v),
         "C19" => c19::replay(v),
+        "C20" => c20::replay(v),
         _ => Err(Failure { message: format!("unknown property '{}' in replay file", id), replay: v.clone() }),
     }
 }
